@@ -86,6 +86,15 @@ func (h *harness) prepare(s *script) {
 		h.attempt(script{Kind: "form", Relation: "same", Fault: "none"})
 		w.rel = ""
 	}
+	if s.Mid != "" && s.Relation != "same" && s.Relation != "wallet-behind" {
+		s.Mid = ""
+	}
+	if s.Mid == "block" && s.Relation == "same" && !w.hasFreshOutput() {
+		// a fresh output for the host: its proof changes with the blocks mined meanwhile
+		w.resync()
+		w.payValue(w.H.w.Address(), 1, freshOutputValue)
+		w.mineHost(types.VoidAddress, true)
+	}
 	w.setRelation(s.Relation)
 	if s.Unconf {
 		if s.Relation != "same" && s.Relation != "behind" {
@@ -139,6 +148,21 @@ func (h *harness) attempt(s script) []string {
 	h.c.Res.Count("fault:" + s.Fault)
 	if s.Unconf {
 		h.c.Res.Count("unconfirmed-inputs")
+	}
+	if s.Zero {
+		h.c.Res.Count("size:zero-host-cost")
+	}
+	if s.Large {
+		h.c.Res.Count("size:two-outputs")
+	}
+	if s.Mid != "" {
+		h.c.Res.Count("mid:" + s.Mid)
+	}
+	if s.Unmined {
+		h.c.Res.Count("state:formation-unconfirmed")
+	}
+	if o.RenterPanic != nil {
+		h.c.Res.Count("renter-panics")
 	}
 	committed := len(o.Log.broadcast) > 0
 	switch {
@@ -220,8 +244,10 @@ func runC16(c *Ctx) {
 	if c.Replay != "" {
 		var rp struct {
 			Replay struct {
-				Script script `json:"script"`
-				Repeat int    `json:"repeat"`
+				Script     script   `json:"script"`
+				Repeat     int      `json:"repeat"`
+				Batch      []script `json:"batch"`
+				Concurrent bool     `json:"concurrent"`
 			} `json:"replay"`
 		}
 		b, err := os.ReadFile(c.Replay)
@@ -229,7 +255,9 @@ func runC16(c *Ctx) {
 		must(json.Unmarshal(b, &rp))
 		h.w = newWorld(c)
 		defer h.w.close()
-		if rp.Replay.Repeat > 1 {
+		if len(rp.Replay.Batch) > 0 {
+			h.batch(rp.Replay.Batch, rp.Replay.Concurrent)
+		} else if rp.Replay.Repeat > 1 {
 			s := rp.Replay.Script
 			h.prepare(&s)
 			h.keepLeaks = true
@@ -288,6 +316,9 @@ func runC16(c *Ctx) {
 				for _, fault := range allFaults {
 					s := script{Kind: kind, Relation: rel, Fault: fault,
 						Partial: c.R.Bool(), Unconf: c.R.Chance(1, 4), Large: c.R.Chance(1, 3)}
+					if !s.Large && c.R.Chance(1, 6) {
+						s.Zero = true
+					}
 					if fault == "req-missing-parents" {
 						s.Unconf = true
 					}
@@ -314,6 +345,62 @@ func runC16(c *Ctx) {
 		for i := 0; i < 3; i++ {
 			h.attempt(script{Kind: kind, Relation: "same", Fault: "none", Unmined: true, Partial: i%2 == 0, Large: i == 1})
 			h.attempt(script{Kind: kind, Relation: "same", Fault: "none", Partial: i%2 == 0})
+		}
+	}
+
+	// something happens between the host's inputs and the renter's signatures: blocks are
+	// mined on the host (its tip, its wallet and its contractor move on), then the exchange
+	// goes on and has to end like any other - delivered, lost or corrupted final response
+	for _, rel := range []string{"same", "wallet-behind"} {
+		for _, kind := range kinds {
+			for i, fault := range []string{"none", "cut4", "sig-bad-input", "none"} {
+				h.attempt(script{Kind: kind, Relation: rel, Fault: fault, Mid: "block", Partial: i%2 == 0, Zero: i == 3})
+			}
+		}
+	}
+	// the host's share is zero: it reserves nothing, in every relation
+	for _, rel := range relations {
+		for _, kind := range kinds {
+			h.attempt(script{Kind: kind, Relation: rel, Fault: "none", Zero: true, Partial: true})
+			h.attempt(script{Kind: kind, Relation: rel, Fault: "cut3", Zero: true})
+			if rel == "same" || rel == "behind" {
+				h.attempt(script{Kind: kind, Relation: rel, Fault: "sig-bad-input", Zero: true, Partial: true})
+				h.attempt(script{Kind: kind, Relation: rel, Fault: "req-dup-inputs", Zero: true})
+			}
+		}
+	}
+	// the renter is further behind than a transaction set is rebased over
+	for _, kind := range kinds {
+		h.attempt(script{Kind: kind, Relation: "behind-far", Fault: "none", Partial: true})
+	}
+	// the renter lost the final response and tries again before anything is mined: its
+	// inputs are spent by the pooled set, the second attempt must fail without a trace and
+	// the first contract must still be mined as recorded
+	for _, kind := range kinds {
+		lost := script{Kind: kind, Relation: "same", Fault: "cut4", Partial: true}
+		h.prepare(&lost) // (forms the contract to renew, if needed, before confirmation is deferred)
+		h.deferConfirm = true
+		h.attempt(lost)
+		h.deferConfirm = false
+		if h.pending != nil {
+			h.c.Res.Count("history:retry-after-lost-final")
+			h.attempt(script{Kind: "form", Relation: "same", Fault: "none"})
+			h.flushPending()
+			h.w.resync()
+		}
+	}
+	// batches judged only at the end: exchanges served concurrently, and sequences of
+	// exchanges with no look at any wallet, pool or contractor in between
+	nb := c.Scale(3, 12)
+	for b := 0; b < nb; b++ {
+		for _, conc := range []bool{true, false} {
+			n := 4 + c.R.Intn(4)
+			var ss []script
+			for i := 0; i < n; i++ {
+				ss = append(ss, script{Kind: kinds[c.R.Intn(3)], Fault: batchFaults[c.R.Intn(len(batchFaults))],
+					Partial: c.R.Bool(), Unconf: c.R.Chance(1, 5), Zero: c.R.Chance(1, 6)})
+			}
+			h.batch(ss, conc)
 		}
 	}
 
@@ -355,6 +442,10 @@ func runC16(c *Ctx) {
 		s := script{Kind: kinds[c.R.Intn(3)], Relation: relations[c.R.Intn(len(relations))],
 			Fault: allFaults[c.R.Intn(len(allFaults))], Partial: c.R.Bool(), Unconf: c.R.Chance(1, 3), Large: c.R.Chance(1, 3)}
 		s.Unmined = s.Kind != "form" && c.R.Chance(1, 10)
+		s.Zero = !s.Large && c.R.Chance(1, 6)
+		if c.R.Chance(1, 8) {
+			s.Mid = "block"
+		}
 		if i < 3 {
 			res.Sample(map[string]any{"script": s.String()})
 		}
